@@ -31,6 +31,27 @@ func genC10(tier string, r *rng, emit func(string)) {
 			if kind == "stack" {
 				axis = r.rangeInt(0, len(sh))
 			}
+			form := ""
+			if kind == "concat" {
+				// the horizontal / vertical shorthands and the package-level function
+				switch r.intn(4) {
+				case 0:
+					if len(sh) >= 1 {
+						form = ":h"
+						axis = 1
+						if len(sh) == 1 {
+							axis = 0
+						}
+					}
+				case 1:
+					if len(sh) >= 2 {
+						form = ":v"
+						axis = 0
+					}
+				case 2:
+					form = ":api"
+				}
+			}
 			for k := 0; k < nops; k++ {
 				shb := append([]int{}, sh...)
 				if kind == "concat" && r.intn(2) == 0 {
@@ -42,10 +63,10 @@ func genC10(tier string, r *rng, emit func(string)) {
 				preB, ib := source(r, lay[r.intn(len(lay))], shb, 30+10*k)
 				others = append(others, p.add(preB, ib))
 			}
-			if r.intn(25) == 0 {
+			if r.intn(25) == 0 && (form == "" || form == ":api") {
 				axis = len(sh) + 1 // invalid axis
 			}
-			p.ops = append(p.ops, fmt.Sprintf("%s:%d:%d:%s", kind, a, axis, fints(others)))
+			p.ops = append(p.ops, fmt.Sprintf("%s:%d:%d:%s%s", kind, a, axis, fints(others), form))
 		default:
 			axis := r.rangeInt(-1, len(sh)-1)
 			if r.intn(25) == 0 {
